@@ -19,6 +19,9 @@ PI = z3.Real('pi')
 ROUND = {}
 
 
+import time
+
+
 class EngineError(BaseException):
     """unsupported construct met while running real code on symbols: never a property verdict"""
 
@@ -87,6 +90,8 @@ class Ctx:
     idx = 0
     work = []
     active = False
+    deadline = 0
+    budget_s = 0
 
 
 ctx = Ctx()
@@ -203,6 +208,10 @@ class Sym:
         return 0x5eed          # one bucket: dict / set lookups with symbolic keys compare with ==, which forks (vp/state.py)
 
     def __repr__(s):
+        if ctx.active and not getattr(ctx, 'in_engine', False):
+            # the code under analysis takes the repr of a number (a memo keyed on repr(value), a message): text derived from a symbol is
+            # outside the value library - better an honest engine error than a key that silently identifies different values
+            raise EngineError('repr() of a symbolic number inside the code under analysis')
         return 'Sym(%s)' % (str(s.t)[:60],)
 
     def __str__(s):
@@ -263,6 +272,9 @@ class SymB:
         c = ctx
         if not c.active:
             raise EngineError('symbolic branch outside explore()')
+        if c.deadline and time.time() > c.deadline:
+            # e.g. a loop that the cut does not reach (moved into a helper) is being unrolled on symbols: outside the engine's reach, never a verdict
+            raise EngineError('exploration time budget used up (%d s)' % c.budget_s)
         i = c.idx
         c.idx += 1
         if i < len(c.prefix):
